@@ -155,14 +155,18 @@ Report ==
                     outcome |-> outcome, hist |-> hist]))
   /\ UNCHANGED <<cfgvars, heap, dataId, kwId, locals, ob, handed, hist, outcome>>
 Vias == {"text", "callbody", "ctl", "anon"}       \* where in the body the by-name call is written
-RebindStep == \/ Assign("x") \/ AssignEqual("x") \/ MutateLocal("x") \/ Assign("y")
-              \/ \E via \in Vias : ReadByName("x", via)
-BodyStep == \/ \E n \in DataNames : Assign(n) \/ AssignEqual(n) \/ MutateLocal(n) \/ ReadCtx(n) \/ ReadSelfDef(n)
-            \/ \E n \in DataNames, via \in Vias : ReadByName(n, via)
-            \/ \E n \in DataNames, how \in {"self", "byname"} : DefAssign(n, how)
-            \/ \E w \in {"body", "selfdef", "bynamedef"} : KwRead(w)
-            \/ \E n \in DataNames \cup {"new"} : KwMutate(n)
-Next == Construct \/ Enter \/ (Family = "history" /\ BodyStep) \/ (Family = "rebind" /\ RebindStep) \/ End \/ Report
+\* the rebind family keeps to the rebinding steps, on x (y is only assigned, as a second local)
+Rebind == Family = "rebind"
+NamesRebound == IF Rebind THEN {"x"} ELSE DataNames
+NamesOther == IF Rebind THEN {} ELSE DataNames
+BodyStep == \/ \E n \in DataNames : Assign(n)
+            \/ \E n \in NamesRebound : AssignEqual(n) \/ MutateLocal(n)
+            \/ \E n \in NamesRebound, via \in Vias : ReadByName(n, via)
+            \/ \E n \in NamesOther : ReadCtx(n) \/ ReadSelfDef(n)
+            \/ \E n \in NamesOther, how \in {"self", "byname"} : DefAssign(n, how)
+            \/ \E w \in (IF Rebind THEN {} ELSE {"body", "selfdef", "bynamedef"}) : KwRead(w)
+            \/ \E n \in (IF Rebind THEN {} ELSE DataNames \cup {"new"}) : KwMutate(n)
+Next == Construct \/ Enter \/ BodyStep \/ End \/ Report
 Spec == Init /\ [][Next]_vars
 
 (* ------------------------------------------------------------------------ *)
